@@ -324,6 +324,8 @@ def sec_convolve(ck, hm, dm, ep):
             nc = int(rng.integers(1, 4))
             ids = ["c%d" % i for i in range(nc)]
             kinds = [KINDS[int(k)] for k in rng.integers(0, len(KINDS), nc)]
+            if len(terms) % 4 == 1:
+                kinds[-1] = "zeroamp"               # a condition whose amplitudes are all 0 keeps its (zero) columns
             con, on, du, va = [], [], [], []
             for cid, kind in zip(ids, kinds):
                 o, d, v = gen_events(rng, ft, TR, mo, kind, TR / 4)
@@ -346,6 +348,15 @@ def sec_convolve(ck, hm, dm, ep):
             try:
                 X, names = guarded(ck, "_convolve_regressors", inp, dm._convolve_regressors, par, model, ft, delays, mo)
             except ImplRaised:
+                continue
+            nbasis = len(delays) if fir else NCOL[model]
+            ncols = 0 if X is None else int(np.asarray(X).reshape(n, -1).shape[1])
+            ck.count(("conv-count", len(terms)), bucket="convolve:column-count")
+            if ncols != nbasis * nc or len(names) != nbasis * nc:
+                zero = [c for c in ids if np.all(va[con == c] == 0)]
+                ck.fail("convolve/column-count/%s" % ("zero-amplitude-condition" if zero and not noamp else "other"),
+                        "_convolve_regressors returns %d columns (names %s) for %d conditions x %d basis functions%s" % (
+                            ncols, [str(x) for x in names], nc, nbasis, "; every event of condition(s) %s has amplitude 0" % zero if zero else ""), inp)
                 continue
             X = np.asarray(X, float).reshape(n, -1)
             ck.count(("conv", TR, n, mo, model, tuple(delays), con.tolist(), on.tolist(), du.tolist(), va.tolist()),
@@ -1001,13 +1012,16 @@ def sec_dmtx(ck, hm, dm, ep):
                 warnings.simplefilter("ignore")
                 d = dm.make_dmtx(ft, par, model, dmodel, hfcut, order, delays, add, addn)
                 drift, dnames = dm._make_drift(dmodel.lower(), ft, order, hfcut)
-        except IndexError as e:
+        except Exception as e:  # noqa
             ck.count(("dmtx-raise", TR, n, dmodel, hfcut), bucket="dmtx:raises")
-            if dmodel.lower() == "cosine" and int(np.floor(2 * n * TR / hfcut)) == 0:
+            rep0 = dict(rep0, variant=variant, con_id=con.tolist(), onsets=on.tolist(), amplitudes=amp.tolist(),
+                        durations=durs.tolist() if block else None, n_add_regs=nadd)
+            if isinstance(e, IndexError) and dmodel.lower() == "cosine" and int(np.floor(2 * n * TR / hfcut)) == 0:
                 ck.fail("drift/cosine-order-zero-raises", "make_dmtx(frametimes TR=%g n=%d, drift_model='cosine', hfcut=%g) raises IndexError "
                         "(run shorter than hfcut/2: no room even for the constant column): %s" % (TR, n, hfcut, e), rep0)
             else:
-                ck.fail("dmtx/raises", "make_dmtx raised IndexError: %s" % e, rep0)
+                ck.fail("dmtx/raises/%s" % variant, "make_dmtx raised %s: %s" % (type(e).__name__, e), rep0)
+            nd += 1
             continue
         X, names = np.asarray(d.matrix), list(d.names)
         nd += 1
@@ -1015,9 +1029,10 @@ def sec_dmtx(ck, hm, dm, ep):
                  bucket="dmtx:%s:%s:%s" % (model, dmodel.lower(), "start0" if start == 0 else "shifted"))
         nb = len(delays) if model == "fir" else NCOL[model]
         rep = {"frametimes": "%g + %g*arange(%d)" % (start, TR, n), "condition_ids": ids, "hrf_model": model, "drift_model": dmodel, "hfcut": hfcut,
-               "drift_order": order, "fir_delays": delays, "n_add_regs": nadd, "add_reg_names": addn, "names": names, "shape": list(X.shape)}
+               "drift_order": order, "fir_delays": delays, "n_add_regs": nadd, "add_reg_names": addn, "names": names, "shape": list(X.shape),
+               "variant": variant, "con_id": con.tolist(), "onsets": on.tolist(), "amplitudes": amp.tolist(), "durations": durs.tolist() if block else None}
         if X.shape != (n, len(names)) or len(names) != nb * len(ids) + nadd + drift.shape[1]:
-            ck.fail("dmtx/column-count", "make_dmtx: %s columns, %d names, expected %d x %d + %d + %d" % (
+            ck.fail("dmtx/column-count/%s" % variant, "make_dmtx: %s columns, %d names, expected %d conditions x %d basis functions + %d + %d" % (
                 X.shape, len(names), len(ids), nb, nadd, drift.shape[1]), rep)
             continue
         if len(set(names)) != len(names):
@@ -1072,9 +1087,13 @@ def sec_dmtx(ck, hm, dm, ep):
         # the listing order of the events is irrelevant (theorem main_regressor_independent_of_listing_order)
         pm = rng.permutation(m) if nd % 2 else np.argsort(on, kind="stable")
         par2 = (ep.BlockParadigm(con[pm], on[pm], durs[pm], amp[pm]) if block else ep.EventRelatedParadigm(con[pm], on[pm], amp[pm]))
-        with warnings.catch_warnings():
-            warnings.simplefilter("ignore")
-            X2 = np.asarray(dm.make_dmtx(ft, par2, model, dmodel, hfcut, order, delays, add, addn).matrix)
+        try:
+            with warnings.catch_warnings():
+                warnings.simplefilter("ignore")
+                X2 = np.asarray(dm.make_dmtx(ft, par2, model, dmodel, hfcut, order, delays, add, addn).matrix)
+        except Exception as e:  # noqa
+            ck.fail("dmtx/raises/relisted", "make_dmtx raised %s: %s on the re-listed paradigm" % (type(e).__name__, e), rep)
+            X2 = X
         if X2.shape != X.shape or np.max(np.abs(X2 - X)) > 1e-9 * max(1.0, np.max(np.abs(X))):
             ck.fail("dmtx/listing-order", "make_dmtx gives a different design matrix when the same events are listed in another order "
                     "(max abs diff %g)" % (np.max(np.abs(X2 - X)) if X2.shape == X.shape else float("nan")),
